@@ -61,6 +61,14 @@ var c13StmtFrags = []struct{ name, text string }{
 	{"string as parameter", "function o7(a, \"s\") { return a; }"},
 	{"keyword as parameter", "function o7(if) { return 1; }"},
 	{"expression as parameter", "function o7(a + b) { return 1; }"},
+	{"nested ternary inside a block in the true arm", "a = b ? if (c) { d ? 1 : 2; } : 3;"},
+	{"nested ternary after a block in the true arm", "a = b ? [ if (c) { 1; }, d ? 1 : 2 ] : 3;"},
+	{"nested ternary inside a loop in the false arm", "a = b ? 1 : foreach e in [1] { d ? 1 : 2; };"},
+	{"nested ternary inside a function body in an arm", "a = b ? function o5() { return d ? 1 : 2; } : 3;"},
+	{"nested ternary inside a while body in an arm", "a = b ? while (c) { y = d ? 1 : 2; } : 3;"},
+	{"nested ternary inside a switch arm in an arm", "a = b ? switch (c) { case 1 { y = d ? 1 : 2; } } : 3;"},
+	{"nested ternary after a block in the false arm", "a = b ? 1 : if (c) { y = 1; } + (d ? 1 : 2);"},
+	{"nested ternary inside two blocks in an arm", "a = b ? if (c) { if (d) { y = 1; } y = d ? 1 : 2; } : 3;"},
 	{"nested ternary in true arm", "a = b ? (c ? 1 : 2) : 3;"},
 	{"nested ternary in false arm", "a = b ? 1 : c ? 2 : 3;"},
 	{"nested ternary in false arm parenthesised", "a = b ? 1 : (c ? 2 : 3);"},
